@@ -5,7 +5,7 @@
 # 3. keep patch.diff, demo and meta.json under /verif/seeded/<Cnn>/
 set -u
 ID=$1; W=$2; shift 2
-OUT=/verif/seeded/$ID; mkdir -p $OUT
+OUT=/verif/seeded/${ID}${SEED_SUFFIX:-}; mkdir -p $OUT
 cd $W || exit 2
 [ -s patch.diff ] || git diff -- src > patch.diff
 cp patch.diff $OUT/patch.diff; cp demo_$ID.py $OUT/ 2>/dev/null; cp meta.txt $OUT/meta.txt 2>/dev/null
@@ -31,7 +31,7 @@ git -C /repo status --short | grep -v '^??' | head -3
 python3 - "$ID" "$TESTS" "$DEMO_CLEAN" "$DEMO_SEEDED" "{${RES%, }}" <<'PY'
 import json,sys,os
 i,tests,dc,ds,res=sys.argv[1:6]
-out=f"/verif/seeded/{i}"
+out=f"/verif/seeded/{i}"+os.environ.get("SEED_SUFFIX","")
 meta={"property":i,"tests_with_change":tests,"demo_exit_on_unchanged_tree":int(dc),"demo_exit_with_change":int(ds),
       "confirmed": ("passed" in tests and "failed" not in tests and dc=="0" and ds=="1"),
       "needs": open(os.path.join(out,"meta.txt")).read() if os.path.exists(os.path.join(out,"meta.txt")) else "",
